@@ -16,6 +16,7 @@ func init() {
 	rt.Register("H_C13_try", H_C13_try)
 	rt.Register("H_C13_reuse", H_C13_reuse)
 	rt.Register("H_C13_nested", H_C13_nested)
+	rt.Register("H_C13_propstep", H_C13_propstep)
 }
 
 // H_C13_reuse: an Either that is kept (bound to a name) and used as the receiver of two
@@ -88,6 +89,9 @@ func H_C13_nested() {
 		rt.Assert(ok && len(qa.Elems) == 2 && qa.Elems[0].Type() == object.StrType && isNil(qa.Elems[1]), "a chain started on an error value calls its steps with that value")
 		return
 	}
+	// or / val / abandon on a successful chain whose value is falsy: still the value
+	fz := h.EvalNoPanic(`[0.try.or(9), "".try.or(9), false.try.or(9), [].try.or(9), 1.try.-(1).or(9), 0.try.val, false.try.abandon]`)
+	rt.Assert(fz.Inspect() == `[0, "", false, [], 0, 0, false]`, "or gives the value of a successful chain, whatever the value is")
 	// a chain started on an Either: its steps are called on that Either
 	q := h.EvalNoPanic(`inner.try.{|e| e.err?}.A`)
 	qa, ok := q.(*object.PanArr)
@@ -96,6 +100,22 @@ func H_C13_nested() {
 		want = object.BuiltInTrue
 	}
 	rt.Assert(ok && len(qa.Elems) == 2 && qa.Elems[0] == want && isNil(qa.Elems[1]), "a chain started on an Either value calls its steps with that Either")
+}
+
+// H_C13_propstep (known finding C13/non-callable-or-missing-property-step): a property step whose
+// property is not callable gives the property, as the plain call does; a step naming a property that
+// does not exist captures the error the plain call raises (same kind and message).
+func H_C13_propstep() {
+	h := NewH()
+	rt.Known("C13/non-callable-or-missing-property-step", true)
+	v := rt.Int64()
+	rt.Assume(v > 2 && v < 1000)
+	h.Set("v", object.NewPanInt(v))
+	a, ok := h.EvalNoPanic(`{a: v}.try.a.A`).(*object.PanArr)
+	rt.Assert(ok && len(a.Elems) == 2 && isInt(a.Elems[0], v) && isNil(a.Elems[1]), "a step naming a non-callable property holds that property, as the plain call does")
+	plain, isErr := h.EvalNoPanic(`v.nosuchprop`).(*object.PanErr)
+	w, ok2 := h.EvalNoPanic(`v.try.nosuchprop.err`).(*object.PanErrWrapper)
+	rt.Assert(isErr && ok2 && w.ErrKind == plain.ErrKind && w.Msg == plain.Msg, "err must hold an error with the type and message the plain call raised")
 }
 
 func arrOfIntNil(o object.PanObject, v int64) bool {
